@@ -569,6 +569,24 @@ theorem neutral_omDelete (f : Bool) : Neutral (omDelete f) := by
   · intro hA rest hne h
     cases hA <;> simp_all [WF, wfB]
 
+theorem wf_reads_underR (n : Nat) (hA : Hold) (rest : List Act) (hne : hA ≠ .req) (h : WF hA .r rest) :
+    WF hA .r (rep n [.read] ++ rest) := by
+  induction n with
+  | zero => simpa [rep] using h
+  | succ n ih =>
+    have : rep (n + 1) [Act.read] ++ rest = .read :: (rep n [.read] ++ rest) := by simp [rep, List.replicate_succ]
+    rw [this]
+    cases hA <;> simp_all [WF, wfB]
+
+theorem neutral_omClone (n : Nat) : Neutral (omClone n) := by
+  intro hA rest hne h
+  have h1 : WF hA .r ([.runlock .M] ++ rest) := by cases hA <;> simp_all [WF, wfB]
+  have h2 := wf_reads_underR n hA _ hne h1
+  have : omClone n ++ rest = .rlock .M :: (rep n [.read] ++ ([.runlock .M] ++ rest)) := by
+    simp [omClone, List.append_assoc]
+  rw [this]
+  cases hA <;> simp_all [WF, wfB]
+
 theorem neutral_rep (n : Nat) {b : List Act} (hb : Neutral b) : Neutral (rep n b) := by
   induction n with
   | zero => exact neutral_nil
@@ -613,6 +631,15 @@ theorem wf_methodScript (c : Call) : WF .none .none (methodScript c) := by
     simpa [methodScript] using this
   | clear =>
     have := neutral_omClear .none [] (by decide) (by decide)
+    simpa [methodScript] using this
+  | mapSet =>
+    have := neutral_omSet .none [] (by decide) (by decide)
+    simpa [methodScript] using this
+  | mapDelete f =>
+    have := neutral_omDelete f .none [] (by decide) (by decide)
+    simpa [methodScript] using this
+  | clone n =>
+    have := neutral_omClone n .none [] (by decide) (by decide)
     simpa [methodScript] using this
 
 theorem wf_methods (cs : List Call) : WF .none .none (cs.flatMap methodScript) := by
@@ -689,5 +716,8 @@ theorem guarded_methodScript (c : Call) (hm : c.isMutator = true) :
     simpa [methodScript, Call.isAtomic, List.append_assoc] using this
   | reader n => simp [Call.isMutator] at hm
   | clear => simp [Call.isMutator] at hm
+  | mapSet => simp [Call.isMutator] at hm
+  | mapDelete f => simp [Call.isMutator] at hm
+  | clone n => simp [Call.isMutator] at hm
 
 end Hive.OMap
